@@ -506,3 +506,57 @@ _add("C16", rollback_flag_not_stale, "C16.35")
 from .common import check_memo_numeric_keys  # noqa: E402
 
 _add("C18", check_memo_numeric_keys, "C18.20")   # a memo hit must not stand in for the validation of another call (hunt wave 8)
+
+
+# ---------------------------------------------------------------- C17 / C14: nesting is judged on the assembled program
+
+def assembled_program_nesting_checked(ctx, rep, rule):
+    """Statements and macros built ahead of the circuit pass through Builder.build unchanged, so the nesting checks
+    made while an s-expression is built never see them.  build_circuit has to look at the assembled program."""
+    from ..cfg import CFG
+    ix, T = ctx.ix, ctx.typer
+    bc = _method(ix, "jaqalpaq.core.circuitbuilder.Builder", "build_circuit")
+    rep.rule(rule, "before it makes the Circuit, Builder.build_circuit hands every macro body and every body statement to a function that refuses a subcircuit nested in a subcircuit or parallel block (objects built ahead of the circuit reach it unchecked)", floor=2)
+
+    def refuses_nesting(fq, depth=0):
+        f = ix.functions.get(fq)
+        if f is None or depth > 2:
+            return False
+        reads = any(isinstance(x, ast.Attribute) and x.attr == "subcircuit" for x in ast.walk(f.node)) or "contains_subcircuit" in ast.unparse(f.node)
+        raises = any(isinstance(x, ast.Raise) for x in ast.walk(f.node))
+        return reads and raises
+
+    cfg = CFG(bc.body)
+    ctor = None
+    for st in iter_stmts(bc.body):
+        if any(isinstance(c, ast.Call) and isinstance(c.func, ast.Name) and c.func.id == "Circuit" for c in ast.walk(st)):
+            ctor = st
+            break
+    if ctor is None:
+        rep.undecided(rule, construct_of(bc, "assembled-nesting"), "the construction of the Circuit is not found", bc.loc())
+        return
+    checked = {"macros": None, "statements": None}
+    for st in iter_stmts(bc.body):
+        if not isinstance(st, ast.For) or st.lineno > ctor.lineno:
+            continue
+        src = ast.unparse(st.iter)
+        which = "macros" if "macros" in src else "statements" if "statements" in src else None
+        if which is None:
+            continue
+        for c in ast.walk(st):
+            if isinstance(c, ast.Call):
+                r = ix.resolve_expr(bc.module, c.func, bc) if isinstance(c.func, (ast.Name, ast.Attribute)) else None
+                if r and r[0] == "func" and refuses_nesting(r[1]):
+                    n_ = cfg.node(st)
+                    if n_ is not None and cfg.must_pass_nodes(cfg.node(ctor), [n_]):
+                        checked[which] = c
+    for which, c in checked.items():
+        cons = construct_of(bc, f"assembled-nesting:{which}")
+        if c is not None:
+            rep.ok(rule, cons, f"`{ast.unparse(c)[:60]}` for each of the {which}", f"{bc.path}:{c.lineno}")
+        else:
+            rep.violation(rule, cons, f"no nesting check of the assembled {which} precedes the construction of the Circuit: `outer = cb.subcircuit(); outer.loop(1, body_with_a_subcircuit)` (CircuitBuilder.loop in its default form builds the loop ahead of the circuit) is accepted, although the same program is refused as text, in Q-syntax and with unevaluated=True -- and the text generated from the accepted circuit does not parse", f"{bc.path}:{ctor.lineno}", witness="b = CircuitBuilder(); body = SequentialBlockBuilder(); body.subcircuit().gate('Foo', r[0]); b.subcircuit().loop(1, body); b.build()")
+
+
+_add("C17", assembled_program_nesting_checked, "C17.12")
+_add("C14", assembled_program_nesting_checked, "C14.21")
